@@ -509,6 +509,29 @@ mod server_check {
             .expect("tokio runtime");
     }
 
+    /// What the real builder said about a route table.
+    pub enum Verdict {
+        /// Accepted (or failed later for a reason that is not the route table).
+        Accepted,
+        Overlapping(Vec<RoutePattern>),
+        MetaCollision { meta: Vec<RoutePattern>, routes: Vec<RoutePattern> },
+    }
+
+    pub fn server_verdict(patterns: &[RoutePattern], introspection: bool) -> Verdict {
+        let mut b = ServerBuilder::with_plane_name("route-engine");
+        for p in patterns {
+            b = b.add_route(p.clone(), NeverRun);
+        }
+        if introspection {
+            b = b.enable_introspection();
+        }
+        match RT.with(|rt| rt.block_on(b.build())) {
+            Err(ServerBuilderError::BadRoutes(swimos_server_app::AmbiguousRoutes::Overlapping { routes })) => Verdict::Overlapping(routes),
+            Err(ServerBuilderError::BadRoutes(swimos_server_app::AmbiguousRoutes::MetaCollision { meta_routes, routes })) => Verdict::MetaCollision { meta: meta_routes, routes },
+            _ => Verdict::Accepted,
+        }
+    }
+
     /// `true`: the server accepted the routes (or failed later, for a reason that is not the route
     /// table); `false`: rejected as ambiguous (`BadRoutes`).
     pub fn server_accepts(patterns: &[RoutePattern]) -> bool {
@@ -622,6 +645,144 @@ fn part_route_table(#[cfg_attr(not(feature = "server-check"), allow(unused_varia
     out.set_sample(json!({"table": accepted.iter().map(|(_, t, _)| t.clone()).collect::<Vec<_>>(), "rejected": rejected}));
 }
 
+// ------------------------------------------------------------------------------------------------
+// Part 6: the real server builder, with and without introspection (meta routes)
+
+#[cfg(feature = "server-check")]
+const META_PATTERNS: [&str; 3] = ["swimos:meta:mesh", "swimos:meta:node/:node_uri", "swimos:meta:node/:node_uri/lane/:lane_name"];
+
+#[cfg(feature = "server-check")]
+fn part_server_tables(_case: u64, rng: &mut Rng, out: &mut CaseOut) {
+    use server_check::{server_verdict, Verdict};
+    let g = Gen { hostile: false, tiny: true, hostile_names: false };
+    let introspection = rng.bool();
+    // Candidate user routes: generated ones, chains derived from each other, and relative patterns shaped
+    // like the meta routes (which are relative, two and four segments long, under the scheme `swimos`).
+    let n = rng.range(2, 6) as usize;
+    let mut texts: Vec<String> = Vec::new();
+    let mut pats: Vec<RoutePattern> = Vec::new();
+    let mut gens: Vec<Pat> = Vec::new();
+    for _ in 0..n {
+        let text = if rng.chance(1, 3) {
+            let segs: usize = *rng.pick(&[1usize, 2, 2, 4, 4, 3]);
+            let mut parts = vec![];
+            for i in 0..segs {
+                let lit: &str = match (i, rng.below(4)) {
+                    (0, 0) => "meta:node",
+                    (0, 1) => "meta:mesh",
+                    (2, 0) | (2, 1) => "lane",
+                    _ => "",
+                };
+                if lit.is_empty() || rng.chance(1, 2) {
+                    parts.push(format!(":p{i}"));
+                } else {
+                    parts.push(lit.to_string());
+                }
+            }
+            let scheme = if rng.chance(1, 4) { "swimos:" } else { "" };
+            format!("{scheme}{}", parts.join("/"))
+        } else {
+            let p = if !gens.is_empty() && rng.chance(3, 5) { mutate_pat(&gens[rng.usize_below(gens.len())].clone(), rng, &g) } else { gen_pat(rng, &g) };
+            let t = p.render();
+            gens.push(p);
+            t
+        };
+        if texts.contains(&text) {
+            continue;
+        }
+        let Ok(rp) = RoutePattern::parse_str(&text) else { continue };
+        texts.push(text);
+        pats.push(rp);
+    }
+    if pats.len() < 2 {
+        out.count("table-too-small");
+        return;
+    }
+    for t in &texts {
+        out.sig(t);
+    }
+    out.sig(&introspection);
+    let meta: Vec<RoutePattern> = if introspection { META_PATTERNS.iter().filter_map(|t| RoutePattern::parse_str(t).ok()).collect() } else { vec![] };
+    // The builder's own judgement, pair by pair.
+    let k = pats.len();
+    let mut overlapping: Vec<bool> = vec![false; k];
+    for i in 0..k {
+        for j in 0..k {
+            if i != j && RoutePattern::are_ambiguous(&pats[i], &pats[j]) {
+                overlapping[i] = true;
+            }
+        }
+    }
+    let colliding: Vec<bool> = (0..k).map(|i| meta.iter().any(|m| RoutePattern::are_ambiguous(m, &pats[i]))).collect();
+    let verdict = server_verdict(&pats, introspection);
+    out.events += (k * k) as u64 + 1;
+    out.nontrivial = true;
+    let table = json!({"routes": texts, "introspection": introspection});
+    match verdict {
+        Verdict::Accepted => {
+            out.count(if introspection { "accepted/with-introspection" } else { "accepted/without-introspection" });
+            if overlapping.iter().any(|b| *b) {
+                out.violation(P, "server-table/accepted-although-two-routes-are-ambiguous", "ServerBuilder::build accepted a table in which its own pairwise check calls two routes ambiguous", table.clone());
+            }
+            if colliding.iter().any(|b| *b) {
+                out.violation(P, "server-table/accepted-although-a-route-collides-with-a-meta-route", "ServerBuilder::build (introspection enabled) accepted a route that are_ambiguous with an introspection route", table.clone());
+            }
+            // every URI resolves to at most one route of the table (user routes then meta routes, as find_route searches)
+            let all: Vec<(&RoutePattern, String)> = pats.iter().zip(texts.iter().cloned()).chain(meta.iter().zip(META_PATTERNS.iter().map(|t| t.to_string()))).collect();
+            'uris: for (rp, _) in &all {
+                for _ in 0..3 {
+                    let names: Vec<String> = rp.parameters().map(|n| n.to_string()).collect();
+                    let m: Bindings = names.into_iter().map(|n| (n, if rng.chance(1, 3) { "lane".to_string() } else { gen_value(rng) })).collect();
+                    let Ok(uri) = rp.apply(&m) else { continue };
+                    let Ok(route_uri) = uri.parse::<RouteUri>() else { continue };
+                    let hits: Vec<&String> = all.iter().filter(|(q, _)| q.unapply_route_uri(&route_uri).is_ok()).map(|(_, t)| t).collect();
+                    out.events += all.len() as u64;
+                    if hits.len() > 1 {
+                        let with_meta = hits.iter().any(|t| t.starts_with("swimos:meta:"));
+                        out.violation(
+                            P,
+                            format!("server-table/accepted-table-resolves-a-uri-to-two-routes/{}", if with_meta { "user-and-meta-route" } else { "two-user-routes" }),
+                            "a server that accepted its routes resolves one URI to more than one route (find_route silently takes the first)",
+                            json!({"table": table, "uri": uri, "matching_routes": hits}),
+                        );
+                        break 'uris;
+                    }
+                }
+            }
+        }
+        Verdict::Overlapping(reported) => {
+            out.count("rejected/overlapping");
+            for i in 0..k {
+                if overlapping[i] && !reported.contains(&pats[i]) {
+                    out.violation(P, "server-table/ambiguity-report-incomplete", "the list of ambiguous routes reported by the builder leaves out a route that overlaps another route of the table", json!({"table": table, "missing": texts[i], "reported": reported.iter().map(|r| r.to_string()).collect::<Vec<_>>()}));
+                    break;
+                }
+            }
+            if !overlapping.iter().any(|b| *b) {
+                out.violation(P, "server-table/rejected-without-ambiguous-pair", "the builder rejected a table as overlapping although no two of its routes are ambiguous", table.clone());
+            }
+        }
+        Verdict::MetaCollision { meta: meta_reported, routes } => {
+            out.count("rejected/meta-collision");
+            for i in 0..k {
+                if colliding[i] && !routes.contains(&pats[i]) {
+                    out.violation(P, "server-table/meta-collision-report-incomplete", "the meta-collision report leaves out a user route that collides with an introspection route", json!({"table": table, "missing": texts[i]}));
+                    break;
+                }
+            }
+            for m in &meta {
+                if pats.iter().any(|p| RoutePattern::are_ambiguous(m, p)) && !meta_reported.contains(m) {
+                    out.violation(P, "server-table/meta-collision-report-incomplete/meta-route", "the meta-collision report leaves out an introspection route that a user route collides with", json!({"table": table, "missing": m.to_string()}));
+                    break;
+                }
+            }
+            if !colliding.iter().any(|b| *b) {
+                out.violation(P, "server-table/rejected-without-meta-collision", "the builder reported a collision with the introspection routes although no route is ambiguous with one of them", table.clone());
+            }
+        }
+    }
+}
+
 fn main() {
     let mut s = Session::new("route");
     #[cfg(not(feature = "server-check"))]
@@ -671,6 +832,18 @@ fn main() {
         n,
         part_route_table,
     );
+
+    #[cfg(feature = "server-check")]
+    {
+        let n = s.args.budget(6_000, 200_000);
+        s.part(
+            "server-tables",
+            "2-6 user routes per case (generated, derived from each other, and relative patterns shaped like the introspection routes) handed to the real ServerBuilder::build, with introspection enabled in half of the cases: an accepted table has no pair its own check calls ambiguous, no route ambiguous with a meta route, and every URI applied from any route (user or meta) matches exactly one route; a rejection names every route that overlaps another / collides with a meta route, and is never issued without such a pair; distinct by (table, introspection)",
+            false,
+            n,
+            part_server_tables,
+        );
+    }
 
     s.finish()
 }
